@@ -87,6 +87,33 @@ func dayLeaf(c *Ctx, recv ssa.Value, env *dayEnv) leafX {
 				return absPtr{"nil", true}, true
 			}
 		}
+		// a local copy of a moment (d := *s) with its time of day reset: the same day, whole-day
+		if al, ok := v.(*ssa.Alloc); ok && structName(al.Type()) == "Solar" && validSolarCopy(al) {
+			zeroed := map[string]bool{}
+			var src ssa.Value
+			for _, ref := range *al.Referrers() {
+				switch x := ref.(type) {
+				case *ssa.Store:
+					src = x.Val.(*ssa.UnOp).X
+				case *ssa.FieldAddr:
+					if x.Referrers() != nil {
+						for _, r2 := range *x.Referrers() {
+							if st, ok := r2.(*ssa.Store); ok {
+								if k, isK := constInt(st.Val); isK && k == 0 {
+									zeroed[fieldKeyOf(x)] = true
+								}
+							}
+						}
+					}
+				}
+			}
+			if src != nil {
+				if d, ok := dayOf(fr, src); ok {
+					return absDay{d.k, d.timed && !(zeroed["Solar.hour"] && zeroed["Solar.minute"] && zeroed["Solar.second"])}, true
+				}
+			}
+			return nil, false
+		}
 		if rc, f, ok := getterField(c, v); ok {
 			if k, ok := env.fields[f]; ok {
 				return k, true
